@@ -140,36 +140,22 @@ func matchStatement(cur Statement, node ipld.Node) (_ matchResult, leafMost Stat
 		}
 	case KindAnd:
 		if s, ok := cur.(connective); ok {
+			acc := newConjunction()
 			for _, cs := range s.statements {
-				res, leaf := matchStatement(cs, node)
-				switch res {
-				case matchResultNoData, matchResultOptionalNoData:
-					return res, leaf
-				case matchResultTrue:
-					// continue
-				case matchResultFalse:
-					return matchResultFalse, leaf
-				}
+				acc.add(matchStatement(cs, node))
 			}
-			return matchResultTrue, nil
+			return acc.result()
 		}
 	case KindOr:
 		if s, ok := cur.(connective); ok {
 			if len(s.statements) == 0 {
 				return matchResultTrue, nil
 			}
+			acc := newDisjunction(cur)
 			for _, cs := range s.statements {
-				res, leaf := matchStatement(cs, node)
-				switch res {
-				case matchResultNoData, matchResultOptionalNoData:
-					return res, leaf
-				case matchResultTrue:
-					return matchResultTrue, leaf
-				case matchResultFalse:
-					// continue
-				}
+				acc.add(matchStatement(cs, node))
 			}
-			return matchResultFalse, cur
+			return acc.result()
 		}
 	case KindLike:
 		if s, ok := cur.(wildcard); ok {
@@ -199,22 +185,15 @@ func matchStatement(cur Statement, node ipld.Node) (_ matchResult, leafMost Stat
 			if it == nil {
 				return matchResultFalse, cur // not a list
 			}
+			acc := newConjunction()
 			for !it.Done() {
 				_, v, err := it.Next()
 				if err != nil {
 					panic("should never happen")
 				}
-				matchRes, leaf := matchStatement(s.statement, v)
-				switch matchRes {
-				case matchResultNoData, matchResultOptionalNoData:
-					return matchRes, leaf
-				case matchResultTrue:
-					// continue
-				case matchResultFalse:
-					return matchResultFalse, leaf
-				}
+				acc.add(matchStatement(s.statement, v))
 			}
-			return matchResultTrue, nil
+			return acc.result()
 		}
 	case KindAny:
 		if s, ok := cur.(quantifier); ok {
@@ -229,25 +208,68 @@ func matchStatement(cur Statement, node ipld.Node) (_ matchResult, leafMost Stat
 			if it == nil {
 				return matchResultFalse, cur // not a list
 			}
+			acc := newDisjunction(cur)
 			for !it.Done() {
 				_, v, err := it.Next()
 				if err != nil {
 					panic("should never happen")
 				}
-				matchRes, leaf := matchStatement(s.statement, v)
-				switch matchRes {
-				case matchResultNoData, matchResultOptionalNoData:
-					return matchRes, leaf
-				case matchResultTrue:
-					return matchResultTrue, nil
-				case matchResultFalse:
-					// continue
-				}
+				acc.add(matchStatement(s.statement, v))
 			}
-			return matchResultFalse, cur
+			return acc.result()
 		}
 	}
 	panic(fmt.Errorf("unimplemented statement kind: %s", cur.Kind()))
+}
+
+// combination accumulates the results of the operands of and/all (conjunction)
+// or or/any (disjunction) so that the outcome does not depend on the order in
+// which the operands are visited:
+//   - conjunction: false if any operand is false, otherwise no-data if any
+//     operand lacks required data, otherwise optional-no-data if any operand
+//     lacks optional data, otherwise true.
+//   - disjunction: true if any operand is true, otherwise optional-no-data if
+//     any operand lacks optional data, otherwise no-data if any operand lacks
+//     required data, otherwise false.
+//
+// The leaf reported is the one of the first operand that decided the outcome.
+type combination struct {
+	disjunction bool
+	cur         Statement // reported when a disjunction is false
+	seen        [4]bool
+	leaf        [4]Statement
+}
+
+func newConjunction() *combination { return &combination{} }
+
+func newDisjunction(cur Statement) *combination {
+	return &combination{disjunction: true, cur: cur}
+}
+
+func (c *combination) add(res matchResult, leaf Statement) {
+	if !c.seen[res] {
+		c.seen[res] = true
+		c.leaf[res] = leaf
+	}
+}
+
+func (c *combination) result() (matchResult, Statement) {
+	order := [3]matchResult{matchResultFalse, matchResultNoData, matchResultOptionalNoData}
+	if c.disjunction {
+		order = [3]matchResult{matchResultTrue, matchResultOptionalNoData, matchResultNoData}
+	}
+	for _, res := range order {
+		if c.seen[res] {
+			if res == matchResultTrue {
+				return res, nil
+			}
+			return res, c.leaf[res]
+		}
+	}
+	if c.disjunction {
+		return matchResultFalse, c.cur
+	}
+	return matchResultTrue, nil
 }
 
 // isOrdered compares two IPLD nodes and returns true if they satisfy the given ordering function.
